@@ -244,7 +244,7 @@ func vfsNewProvider(dir string, rec *vfRecorder, watch bool) (*Provider, error) 
 func TestC18(t *testing.T) {
 	r := core.Begin("C18", "fault_enumeration")
 	r.Rule("file_system: exhaustive sequences (length <=4 quick / <=5 thorough) over 11 mutations of two files of a real directory " +
-		"(write new/same/invalid/empty, remove, chmod, rename a<->b, processor failure) x 4 event delivery schedules x 2 initial states, fed as fsnotify events into " +
+		"(write new/same/invalid/empty, remove, chmod, rename a<->b, processor failure) x 3 event delivery lags (shorter lengths also: every event twice, file present at Start), fed as fsnotify events into " +
 		"Provider.ruleSetsChanged; plus seeded sequences against the real fsnotify loop (Start, sentinel file for quiescence). Oracle: vfDecide per processed event on the " +
 		"actual file state at processing time, and active rule sets = latest valid content of existing files at the end. Non-trivial: >=2 successful processor calls.")
 	r.Assume("direct mode synthesises the fsnotify events inotify reports for each mutation (Create/Write/Chmod/Remove/Rename+Create); the watch mode uses the real ones",
@@ -334,9 +334,16 @@ func vfsDirect(r *core.Run) {
 		defer os.RemoveAll(d)
 	}
 	inits := []string{"empty-dir", "a-present-at-start"}
+	type combo struct{ mode, init int }
 	for n := 1; n <= maxLen; n++ {
 		perLen := vfPow(vfsN, n)
-		total := perLen * len(vfsModes) * len(inits)
+		// the longest length runs with the three distinct delivery lags from an empty directory; the
+		// duplicate-delivery schedule and the "file present at start" state are added for all shorter ones
+		combos := []combo{{0, 0}, {1, 0}, {2, 0}}
+		if n < maxLen {
+			combos = append(combos, combo{3, 0}, combo{0, 1}, combo{1, 1}, combo{2, 1}, combo{3, 1})
+		}
+		total := perLen * len(combos)
 		vfParallel(r, total, func(wk int) (func(int, *vfStats), func()) {
 			dir := filepath.Join(base, fmt.Sprintf("w%d", wk))
 			_ = os.MkdirAll(dir, 0o755)
@@ -345,8 +352,7 @@ func vfsDirect(r *core.Run) {
 			digits := make([]int, n)
 			run := func(idx int, st *vfStats) {
 				seqIdx := idx % perLen
-				mode := (idx / perLen) % len(vfsModes)
-				init := idx / perLen / len(vfsModes)
+				mode, init := combos[idx/perLen].mode, combos[idx/perLen].init
 				vfDigits(seqIdx, vfsN, n, digits)
 				nOK, bad := vfsRunDirect(r, world, digits, mode, init, st)
 				key := fmt.Sprint("fs|", digits, mode, init)
